@@ -450,7 +450,7 @@ def build_case(spec):
   data = Data(random.Random(spec['dseed']), hostile=spec['hostile'], neutral=spec.get('neutral', False))
   data.exotic = spec.get('extra') == 'exotic'
   value = gen_value(srng, data, spec['depth'])
-  while child_items(value) is None and srng.random() < 0.8:     # mostly containers at the root
+  while not child_items(value) and srng.random() < 0.85:     # mostly non-empty containers at the root
     value = gen_value(srng, data, spec['depth'])
   kw = resolve_options(spec['sym'], value, srng, data)
   kw.update(extra_options(spec.get('extra'), value, srng, data))
@@ -479,6 +479,13 @@ EXTRAS = ['exotic', 'debug', 'title', 'color_fn', 'highlight', 'key_style_fn', '
 
 def render(value, kw, content_only=True):
   return pg().to_html_str(value, content_only=content_only, **kw)
+
+def shape_of(value):
+  items = child_items(value)
+  if not items:
+    return (1, 0)
+  subs = [shape_of(v) for _, v in items]
+  return (1 + sum(n for n, _ in subs), 1 + max(d for _, d in subs))
 
 def snap(value):
   items = child_items(value)
@@ -757,19 +764,19 @@ def run(ctx):
   specs = list(LITERALS)
   rows = pairwise(OPTION_SPACE, random.Random(rng.getrandbits(32)))
   ctx.extra['pairwise_rows'] = len(rows)
-  nvalues = ctx.scale(30, 80)
+  nvalues = ctx.scale(30, 160)
   for vi in range(nvalues):
     sseed = rng.getrandbits(32)
     for row in rows:
       specs.append(dict(kind='gen', sseed=sseed if vi % 2 == 0 else rng.getrandbits(32), dseed=rng.getrandbits(32), hostile=True, sym=row, depth=rng.choice([1, 2, 2, 3])))
-  for _ in range(ctx.scale(400, 4000)):      # default options, deeper values
+  for _ in range(ctx.scale(400, 8000)):      # default options, deeper values
     specs.append(dict(kind='gen', sseed=rng.getrandbits(32), dseed=rng.getrandbits(32), hostile=rng.random() < 0.9, sym=dict(DEFAULTS), depth=rng.choice([2, 3, 4])))
   if ctx.thorough:                           # full product of the interacting options (reduced domains) on small values
     PRODUCT = [('enable_summary', [None, True, False]), ('enable_summary_for_str', [True, False]), ('max_summary_len_for_str', [80, 12]),
                ('enable_summary_tooltip', [True, False]), ('enable_key_tooltip', [True, False]), ('key_style', ['summary', 'label']),
                ('include_keys', [None, 'some', 'none']), ('exclude_keys', [None, 'some']), ('collapse_level', [1, None, 0, 2]), ('uncollapse', [None, 'deep'])]
     nprod = 0
-    for combo in itertools.product(*[v for _, v in PRODUCT]):
+    for combo in list(itertools.product(*[v for _, v in PRODUCT])) * 2:
       sym = {n: c for (n, _), c in zip(PRODUCT, combo)}
       for n_, v_ in OPTION_SPACE[10:]: sym[n_] = rng.choice(v_)
       specs.append(dict(kind='gen', sseed=rng.getrandbits(32), dseed=rng.getrandbits(32), hostile=True, sym=sym, depth=rng.choice([1, 2]))); nprod += 1
@@ -809,6 +816,9 @@ def run(ctx):
     for r in set(data.roles.values()): ctx.hist('data_roles', r)
     ctx.hist('root_type', type(value).__name__ if not SENT_RE.search(type(value).__name__) else 'hostile-class-name')
     ctx.hist('options_given', len(kw))
+    shape = shape_of(value)
+    ctx.hist('value_nodes', '1' if shape[0] == 1 else '2-5' if shape[0] <= 5 else '6-15' if shape[0] <= 15 else '16+')
+    ctx.hist('value_depth', shape[1])
     try:
       out = render(value, kw)
     except Exception as e:
